@@ -157,8 +157,10 @@ def futStep (c : Codec σ) (s : Enc σ) (joins : List Nat) : FutStep σ :=
       let s' : Enc σ := { s with encoder := some r.2, fut := none }
       if r.1.isEmpty then .go s' joins.tail else .ret (.chunk r.1) s' joins.tail
 
-/-- one call of `poll_next` (:173): result, new state, unconsumed environment answers -/
-def pollNext (c : Codec σ) (s : Enc σ) (body : List BodyEv) (joins : List Nat) :
+/-- one call of `poll_next` (:173): result, new state, unconsumed environment answers.
+`inPlace b` is the test `chunk.len() < MAX_CHUNK_SIZE_ENCODE_IN_PLACE` (a parameter so that the
+theorems can quantify over every split between the in-place and the blocking path). -/
+def pollNextAt (inPlace : Bytes → Bool) (c : Codec σ) (s : Enc σ) (body : List BodyEv) (joins : List Nat) :
     Out × Enc σ × List BodyEv × List Nat :=
   if s.eof then (.done, s, body, joins) else
   match futStep c s joins with
@@ -177,24 +179,33 @@ def pollNext (c : Codec σ) (s : Enc σ) (body : List BodyEv) (joins : List Nat)
     | .chunk b :: rest =>
       match s'.encoder with
       | some e =>
-        if b.length < Consts.encMaxChunkInPlace then
+        if inPlace b then
           let r := c.take (c.write e b)
           let s2 : Enc σ := { s' with encoder := some r.2 }
-          if r.1.isEmpty then pollNext c s2 rest j' else (.chunk r.1, s2, rest, j')
+          if r.1.isEmpty then pollNextAt inPlace c s2 rest j' else (.chunk r.1, s2, rest, j')
         else
-          pollNext c { s' with encoder := none, fut := some (c.write e b) } rest j'
+          pollNextAt inPlace c { s' with encoder := none, fut := some (c.write e b) } rest j'
       | none => (.chunk b, s', rest, j')
 termination_by body.length
 decreasing_by all_goals simp_wf <;> omega
 
+/-- the code's split: `chunk.len() < MAX_CHUNK_SIZE_ENCODE_IN_PLACE` (:212) -/
+def inPlaceCode (b : Bytes) : Bool := decide (b.length < Consts.encMaxChunkInPlace)
+
+/-- `poll_next` as coded -/
+def pollNext (c : Codec σ) (s : Enc σ) (body : List BodyEv) (joins : List Nat) :
+    Out × Enc σ × List BodyEv × List Nat := pollNextAt inPlaceCode c s body joins
+
 /-- poll until `Ready(None)` / an error, at most `fuel` times -/
-def drive (c : Codec σ) : Nat → Enc σ → List BodyEv → List Nat → List Out
+def driveAt (inPlace : Bytes → Bool) (c : Codec σ) : Nat → Enc σ → List BodyEv → List Nat → List Out
   | 0, _, _, _ => []
   | fuel + 1, s, body, joins =>
-    match pollNext c s body joins with
+    match pollNextAt inPlace c s body joins with
     | (.done, _, _, _) => [.done]
     | (.err, _, _, _) => [.err]
-    | (o, s', b', j') => o :: drive c fuel s' b' j'
+    | (o, s', b', j') => o :: driveAt inPlace c fuel s' b' j'
+
+def drive (c : Codec σ) : Nat → Enc σ → List BodyEv → List Nat → List Out := driveAt inPlaceCode c
 
 /-- enough polls for any schedule (proved in `Props/C13.lean`: `C13_terminates`) -/
 def fuelFor (s : Enc σ) (body : List BodyEv) (joins : List Nat) : Nat :=
@@ -252,6 +263,16 @@ def compress (ae : Option AE) (h : Head) (ct : Option (String × String)) (b : R
     let enc := if compressPredicate ct then enc else .identity
     let r := response enc h b.size
     { head := r.1, mode := r.2, size := encSize r.2 b.size, evs := encBodyEvs r.2 b }
+
+/-- How `h1::encoder::MessageType::encode_headers` (actix-http/src/h1/encoder.rs:54) frames a
+response whose status is not 1xx / 204 / 304: (`transfer-encoding: chunked`?, the `Content-Length`
+value sent).  `hcl` is a `Content-Length` header set by the handler: it is copied only for a
+`Stream` body with chunking disabled (`skip_len`), otherwise the length comes from the body size. -/
+def h1Framing (size : BodySize) (noChunking : Bool) (hcl : Option String) : Bool × Option String :=
+  match size with
+  | .stream => if noChunking then (false, hcl) else (true, none)
+  | .sized n => (false, some (toString n))
+  | .none => (false, none)
 
 /-! ### a concrete codec for the line driver (and as the inhabitant of the codec law)
 
